@@ -290,6 +290,7 @@ package dmap
 //@   ensures #elems_kept: forall k int :: 0 <= k && k < len(result) ==> result[k] != nil && result[k].entry != nil
 //@   ensures #newest_first [C06]: forall a int, b int :: 0 <= a && a < b && b < len(result) ==> result[a].entry.timestamp >= result[b].entry.timestamp
 //@   ensures #nothing_lost [C06]: forall k int :: 0 <= k && k < len(versions) ==> result[0].entry.timestamp >= old(versions[k].entry.timestamp)
+//@   ensures #nothing_invented [C06]: forall k int :: 0 <= k && k < len(result) ==> exists j int :: 0 <= j && j < len(versions) && result[k] == old(versions[j])
 //@   modifies elems(versions)
 
 // Nil copies are dropped, the rest is ordered newest first; no gathered copy is newer than the winner.
@@ -309,11 +310,39 @@ package dmap
 //@   loop 0 invariant #input: forall k int :: 0 <= k && k < len(versions) ==> versions[k] == old(versions[k])
 
 // Gathering copies talks to other members; only the shape of what comes back is assumed.
+// owner_lookups counts the lookups sent to previous owners of a partition (ghost).
+//@ ghost var owner_lookups int
+
+//@ func (dm *DMap) lookupOnPreviousOwner(owner *discovery.Member, key string) (*version, error)
+//@   props C06
+//@   trusted
+//@   requires #owner: owner != nil
+//@   ensures #asked: owner_lookups == old(owner_lookups) + 1
+//@   ensures #shape: result.1 == nil ==> result.0 != nil && fresh(result.0) && result.0.host == owner && result.0.entry != nil
+//@   modifies owner_lookups
+
+//@ func (dm *DMap) lookupOnThisNode(hkey uint64, key string) *version
+//@   props C06 C09
+//@   flag termination
+//@   flag wired 3
+//@   requires #parts: dm.s.parts() && dm.s.primary.count > 0 && dm.s.backup.count > 0
+//@   ensures #shape: result != nil && fresh(result) && result.host != nil
+//@   modifies every(dm.engine.la)
+
+// The copy on this member and a lookup on EVERY previous owner of the partition (newest owner first): a newer copy
+// left behind on a previous owner must be seen by the read.
 //@ func (dm *DMap) lookupOnOwners(hkey uint64, key string) []*version
 //@   props C05 C06 C09
-//@   trusted
+//@   flag termination
+//@   flag wired 3
+//@   requires #parts: dm.s.parts() && dm.s.primary.count > 0 && dm.s.backup.count > 0 && dm.s.primary.kind == partitions.PRIMARY
 //@   ensures #shape: len(result) >= 1 && fresh(result) && off(result) == 0 && forall k int :: 0 <= k && k < len(result) ==> result[k] != nil && result[k].host != nil
-//@   modifies nothing
+//@   ensures #every_previous_owner_asked [C06] internal: owner_lookups == old(owner_lookups) + len(owners) - 1
+//@   loop 0 invariant #asked: -1 <= i && i <= len(owners) - 2 && owner_lookups == old(owner_lookups) + (len(owners) - 2 - i) && len(versions) >= 1 && fresh(versions) && off(versions) == 0 &&
+//@                forall k int :: 0 <= k && k < len(versions) ==> versions[k] != nil && versions[k].host != nil
+//@   loop 0 invariant #temporaries: onlyfresh(dm.engine.la)
+//@   loop 0 decreases i + 1
+//@   modifies owner_lookups, every(dm.engine.la)
 
 //@ func (dm *DMap) lookupOnReplicas(hkey uint64, key string) []*version
 //@   props C05 C06 C09
@@ -321,13 +350,19 @@ package dmap
 //@   ensures #shape: fresh(result) && off(result) == 0 && forall k int :: 0 <= k && k < len(result) ==> result[k] != nil && result[k].host != nil
 //@   modifies nothing
 
-// Read repair pushes the winner to the holders of other versions: it must be given the newest copy.
+// Read repair pushes the winner to the holders of other versions: it must be given the newest copy and ALL gathered
+// versions (the nil ones mark holders without a copy). The ghost globals record what it was given.
+//@ ghost var repair_base Ref
+//@ ghost var repair_off int
+//@ ghost var repair_len int
+//@ ghost var repair_winner Ref
 //@ func (dm *DMap) readRepair(winner *version, versions []*version)
 //@   props C06
 //@   trusted
 //@   requires #winner_newest [C06]: winner != nil && winner.entry != nil && forall k int :: 0 <= k && k < len(versions) ==>
 //@                versions[k] != nil && (versions[k].entry != nil ==> winner.entry.timestamp >= versions[k].entry.timestamp)
-//@   modifies every(winner.host.ID)
+//@   ensures #scope: repair_base == base(versions) && repair_off == off(versions) && repair_len == len(versions) && repair_winner == winner
+//@   modifies repair_base, repair_off, repair_len, repair_winner
 
 //@ func (dm *DMap) isKeyIdle(hkey uint64) bool
 //@   props C09 C10
@@ -341,10 +376,13 @@ package dmap
 //@   flag clock
 //@   flag termination
 //@   flag wired 3
+//@   requires #parts: dm.s.parts() && dm.s.primary.count > 0 && dm.s.backup.count > 0 && dm.s.primary.kind == partitions.PRIMARY
 //@   ensures #never_after_deadline [C09]: result.1 == nil ==> result.0 != nil && !deadAt(result.0.ttl, old(now()))
 //@   ensures #err_kind [C05]: result.1 == nil || result.1 == ErrReadQuorum || result.1 == ErrKeyNotFound
 //@   ensures #winner_is_newest [C06] internal: result.1 == nil ==> forall k int :: 0 <= k && k < len(versions) && versions[k].entry != nil ==>
 //@                result.0.timestamp >= versions[k].entry.timestamp
+//@   ensures #repair_sees_every_copy [C06] internal: result.1 == nil && dm.s.config.ReadRepair ==>
+//@                repair_base == base(versions) && repair_off == off(versions) && repair_len == len(versions) && repair_winner == winner && winner.entry == result.0
 //@   ensures #read_quorum_met [C05] internal: result.1 == nil ==> len(sorted) >= dm.s.config.ReadQuorum && len(sorted) <= len(versions)
 //@   ensures #too_few_answers [C05] internal: len(versions) < dm.s.config.ReadQuorum ==> result.1 == ErrReadQuorum
 //@   ensures #too_few_copies [C05] internal: len(versions) >= dm.s.config.ReadQuorum && len(sorted) > 0 && len(sorted) < dm.s.config.ReadQuorum ==> result.1 == ErrReadQuorum
@@ -406,17 +444,23 @@ package dmap
 //@ func (dm *DMap) deleteKey(key string) error
 //@   props C15
 //@   trusted
-//@   modifies net_acks, DeleteMisses.counter, DeleteHits.counter, every(dm.s.primary.m[0].m)
+//@   modifies net_acks, DeleteMisses.counter, DeleteHits.counter, every(dm.engine.has), every(dm.engine.count), every(dm.engine.inuse), every(dm.engine.la)
+
+// routed_deletes (ghost) counts the keys that went through deleteKeys, the routine that routes every key to its
+// owner; a DM.DEL arriving over the network must be served by it (the receiving member may own none of the keys).
+//@ ghost var routed_deletes int
 
 //@ func (dm *DMap) deleteKeys(ctx context.Context, keys []string) (int, error)
 //@   props C15
+//@   ghost routed_deletes := routed_deletes + len(keys)
+//@   ensures #routed [C15]: routed_deletes == old(routed_deletes) + len(keys)
 //@   flag wired 3
 //@   requires #parts: dm.s.parts() && dm.s.primary.count > 0 && dm.s.backup.count > 0
 //@   ensures #count [C15]: result.1 == nil ==> result.0 == len(keys)
 //@   ensures #failed [C15]: result.1 != nil ==> result.0 == 0
 //@   ensures #all_groups [C15] internal: result.1 == nil ==> forall k Ref :: dom(members)[k] ==> visited(k)
-//@   loop 0 invariant #grouping: members != nil
-//@   loop 1 invariant #groups: members != nil
+//@   loop 0 invariant #grouping: members != nil && routed_deletes == old(routed_deletes)
+//@   loop 1 invariant #groups: members != nil && routed_deletes == old(routed_deletes)
 
 // ---------------------------------------------------------------------------------------------------
 // C10: eviction. Deleting a key everywhere talks to other members; only its effect on this fragment is assumed.
@@ -474,3 +518,27 @@ package dmap
 //@   ensures #idle_after_window [C10]: dm.config != nil && dm.config.maxIdleDuration != 0 && f.storage.has[hkey] && (dm.config.maxIdleDuration + f.storage.la[hkey]) / 1000000 != 0 &&
 //@                old(now()) / 1000000 >= (dm.config.maxIdleDuration + f.storage.la[hkey]) / 1000000 ==> result
 //@   modifies EvictedTotal.counter
+
+// C06 (merge): importing an entry keeps the newer of the stored and the incoming copy. The stored timestamp never
+// goes down and is at least the incoming one, so the result does not depend on arrival order or re-delivery
+// (the maximum is commutative, associative and idempotent; ties keep either copy).
+//@ func (dm *DMap) fragmentMergeFunction(f *fragment, hkey uint64, entry storage.Entry) error
+//@   props C06 C03
+//@   flag termination
+//@   requires #args: dm != nil && f != nil && f.storage != nil && entry != nil
+//@   ensures #newest_kept [C06]: result == nil ==> f.storage.has[hkey] && f.storage.ts[hkey] >= entry.timestamp &&
+//@                (old(f.storage.has)[hkey] ==> f.storage.ts[hkey] >= old(f.storage.ts)[hkey])
+//@   ensures #one_of_the_two [C06]: result == nil ==>
+//@                (f.storage.ts[hkey] == entry.timestamp && f.storage.val[hkey] == bstr(entry.value) && f.storage.ttl[hkey] == entry.ttl) ||
+//@                (old(f.storage.has)[hkey] && f.storage.ts[hkey] == old(f.storage.ts)[hkey] && f.storage.val[hkey] == old(f.storage.val)[hkey] && f.storage.ttl[hkey] == old(f.storage.ttl)[hkey])
+//@   ensures #others_untouched [C06]: forall g uint64 :: g != hkey ==> f.storage.has[g] == old(f.storage.has)[g] && f.storage.val[g] == old(f.storage.val)[g] &&
+//@                f.storage.ts[g] == old(f.storage.ts)[g] && f.storage.ttl[g] == old(f.storage.ttl)[g]
+//@   modifies f.storage.has, f.storage.key, f.storage.val, f.storage.ttl, f.storage.ts, f.storage.la, f.storage.count, f.storage.inuse
+
+//@ func (s *Service) delCommandHandler(conn redcon.Conn, cmd redcon.Command)
+//@   props C15 C16
+//@   flag termination
+//@   flag wired 2
+//@   requires #args: len(cmd.Args) >= 1
+//@   requires #parts: s.parts() && s.primary.count > 0 && s.backup.count > 0
+//@   ensures #routes_every_key [C15] internal: err == nil ==> routed_deletes == old(routed_deletes) + count
